@@ -83,6 +83,9 @@ def run(ctx, prefixes):
         # the receiver stops reading while 64 KiB of DATA are on their way to it, lowers its initial window to 0, reads again:
         # the acknowledgement of that SETTINGS frame comes after the DATA that was admitted before it (MC_H2Relay_AckOvertakes)
         {"h": [act("headers", 1), act("bpause")] + [act("data", 1, 4000)] * 16 + [act("ctl", 0, t="SI", v=0), act("bresume")], "dir": "s2c"},
+        # the receiver resets a stream, the sender's DATA for it is still on its way: all of it is credited back
+        {"h": [act("headers", 1), act("headers", 3), act("data", 1, 1000), act("brst", 1), act("data", 1, 16383), act("data", 1, 16383),
+               act("data", 1, 16383), act("data", 3, 100, es=True)]},
         # a PUSH_PROMISE whose header block is completed by a CONTINUATION frame, then the response
         {"h": [act("headers", 1), act("push_open", 1, n=2), act("cont", 1), act("headers", 1, es=True)], "dir": "s2c"},
         {"h": [act("headers", 3), act("data", 3, 100), act("push_open", 3, n=4), act("cont", 3), act("data", 3, 100, es=True)], "dir": "s2c"},
